@@ -1,3 +1,4 @@
+import Driver.C12
 import Driver.C14
 import Driver.C16
 import Driver.C17
@@ -15,6 +16,7 @@ open Driver
 
 def dispatch (prop : String) (args : List String) (impl : String) : Verdict :=
   match prop with
+  | "C12" => C12.handle args impl
   | "C14" => C14.handle args impl
   | "C16" => C16.handle args impl
   | "C17" => C17.handle args impl
